@@ -180,7 +180,8 @@ def cases(tier, cfg):
     else:
         types = ["f32", "f64", "i32", "i64"] if base else ["f32", "i64", "i32"]
     tl = trees(tier)
-    if base and (main or tier == "thorough"):
+    if base and (main or tier == "thorough" or cfg.isa == "S0"):
+        # (S0: the scalar-ABI complex vector is a type of its own)
         types = types + (["c64"] if tier == "quick" else ["c64", "c32"])
     for t in types:
         W = cfg.w(t)
